@@ -25,7 +25,7 @@ VARIABLES G,              \* gateway side (core)
           ctr, cver,      \* controller: change counter, content version per zone
           phase,          \* "main" | "fu" | "end"
           cnt,            \* budgets used: [started, fault, bump, heard, age]
-          ct,             \* contract history (C18a): [acc, armed, since] - versions a result may carry
+          ct,             \* contract history (C18a): [acc, armed, since, fresh] - versions a result may carry
           lastEnded, fuDone, lockAtMainEnd,
           h               \* environment choices (scenario for the harness)
 
@@ -49,20 +49,30 @@ Init == /\ G = GInit(Zones) /\ late = {}
         /\ phase = "main"
         /\ cnt = [started |-> 0, fault |-> 0, bump |-> 0, heard |-> 0, age |-> 0]
         /\ ct = [acc |-> [z \in Zones |-> {0}], armed |-> [z \in Zones |-> FALSE],
-                 since |-> [z \in Zones |-> {0}]]
+                 since |-> [z \in Zones |-> {0}], fresh |-> FALSE]
         /\ lastEnded = 0 /\ fuDone = {} /\ lockAtMainEnd = NoZone
         /\ h = <<>>
 
 \* ---- contract history -----------------------------------------------------------------------
+\* A transfer may rely on a change counter it reads itself, or (the latitude the library takes: "cached values are
+\* only used if less than 3 minutes old") on the latest counter the controller was heard to send - but only while
+\* that reading is younger than the freshness window.  ct.fresh is the environment's side of that window (a fact
+\* about elapsed time, whatever the gateway believes): set when the controller sends an RP|0006, reset when more
+\* than the window has passed since (AgeCache, the 3-minute lock wait).  A transfer called with ct.fresh = FALSE
+\* has no earlier reading to go by: until it reads a counter itself, the only schedule that is certainly "the
+\* controller's" is the one the controller holds from the call on (acc = {cver[z]}, plus later edits).
 \* the controller answers an RQ|0006 (or is overheard doing so): a change counter is read
 VRead(c) == [acc   |-> [z \in Zones |-> IF Active(G, z) /\ ~c.armed[z] THEN {cver[z]} ELSE c.acc[z]],
              armed |-> [z \in Zones |-> c.armed[z] \/ Active(G, z)],
-             since |-> [z \in Zones |-> {cver[z]}]]
+             since |-> [z \in Zones |-> {cver[z]}],
+             fresh |-> TRUE]
 \* zone z's content becomes version v
 Changed(c, z, v) == [c EXCEPT !.acc[z] = IF Active(G, z) THEN @ \cup {v} ELSE @,
                               !.since[z] = @ \cup {v}]
 \* a transfer of zone z is called
-Called(c, z) == [c EXCEPT !.acc[z] = c.since[z], !.armed[z] = FALSE]
+Called(c, z) == [c EXCEPT !.acc[z] = IF c.fresh THEN c.since[z] ELSE {cver[z]}, !.armed[z] = FALSE]
+\* more than the freshness window has passed since the controller last sent its change counter
+Expired(c) == [c EXCEPT !.fresh = FALSE]
 
 \* the transfer (if any) that G2 ends
 NoteEnd(G2) == lastEnded' = IF \E z \in Zones : Active(G, z) /\ ~Active(G2, z)
@@ -155,7 +165,8 @@ StuckTimeout(z) ==
     /\ LET G2 == IF Z(G, z).op = "get" THEN Fail(G, z, "timeout", Fix)
                  ELSE Age(Fail(G, z, "locktimeout", Fix))          \* 3 minutes have passed
        IN  G' = G2 /\ NoteEnd(G2)
-    /\ UNCHANGED <<late, ctr, cver, phase, cnt, ct, fuDone, lockAtMainEnd, h>>
+    /\ ct' = IF Z(G, z).op = "get" THEN ct ELSE Expired(ct)
+    /\ UNCHANGED <<late, ctr, cver, phase, cnt, fuDone, lockAtMainEnd, h>>
 
 \* ---- the rest of the world ------------------------------------------------------------------------
 \* somebody else changes zone z's schedule on the controller (silently, e.g. on its touch screen)
@@ -196,11 +207,15 @@ HeardVer ==
     /\ h' = Append(h, Ev("heard6", 0, 0, 0, 0))
     /\ UNCHANGED <<late, ctr, cver, phase, lastEnded, fuDone, lockAtMainEnd>>
 
+\* more than the freshness window (3 minutes; by how much - minutes, a day and a bit, a week - is the harness's sweep,
+\* checks/c18.py AGES) passes with no RP|0006 of the controller heard: the gateway's cached counter stops being usable
+\* (Age: the code compares the message's time stamp with now) and the contract stops admitting it (Expired)
 AgeCache ==
     /\ phase = "main" /\ cnt.age < MaxAge /\ G.fresh /\ ~AnyActive
     /\ G' = Age(G) /\ cnt' = [cnt EXCEPT !.age = @ + 1]
+    /\ ct' = Expired(ct)
     /\ h' = Append(h, Ev("age", 0, 0, 0, 0))
-    /\ UNCHANGED <<late, ctr, cver, phase, ct, lastEnded, fuDone, lockAtMainEnd>>
+    /\ UNCHANGED <<late, ctr, cver, phase, lastEnded, fuDone, lockAtMainEnd>>
 
 \* ---- follow-up phase: fault-free get_schedule(force_io=True) on every zone, in any order ----------
 ToFollowUp ==
